@@ -91,6 +91,25 @@ enum Op {
     Cancel { op: OpId, by: Who },
     Advance(u32),
     Admin { call: Call, sig: Sig, executor_signs: Option<Who> },
+    /// grant_role / revoke_role called directly by an ordinary account naming itself as caller and
+    /// signing for itself (no timelocked operation involved)
+    DirectRole { grant: bool, role: Role, caller: Who },
+}
+
+#[derive(Clone, Copy, Debug, PartialEq, Eq, PartialOrd, Ord, Hash)]
+enum Role {
+    Proposer,
+    Canceller,
+    Executor,
+}
+impl Role {
+    fn name(&self) -> &'static str {
+        match self {
+            Role::Proposer => "proposer",
+            Role::Canceller => "canceller",
+            Role::Executor => "executor",
+        }
+    }
 }
 
 #[derive(Clone, Copy, Debug, PartialEq, Eq, Hash)]
@@ -198,6 +217,12 @@ impl Tlc {
             Op::Advance(k) => {
                 envx::advance(e, *k);
                 true
+            }
+            Op::DirectRole { grant, role, caller } => {
+                // grant: to the stranger X; revoke: from the proposer P
+                let (f, account) = if *grant { ("grant_role", i.x.clone()) } else { ("revoke_role", i.p.clone()) };
+                let a: SVec<Val> = (account, Symbol::new(e, role.name()), i.who(*caller)).into_val(e);
+                call_signed(e, &i.c, f, a, &[i.who(*caller)]).is_ok()
             }
             Op::Admin { call, sig, executor_signs } => {
                 let (f, args) = i.call_args(*call);
@@ -335,7 +360,14 @@ impl World for Tlc {
         format!("timelock-controller-{}{}", if self.with_executor { "executor" } else { "open-execution" }, if self.thorough { "-t" } else { "" })
     }
 
-    fn fresh(&self, _seed: usize) -> (Inst, Model) {
+    fn seeds(&self) -> usize {
+        2
+    }
+    fn seed_name(&self, s: usize) -> String {
+        ["fresh controller", "after the timelocked grant of the proposer role to X (X proposes but cannot cancel)"][s].into()
+    }
+
+    fn fresh(&self, seed: usize) -> (Inst, Model) {
         let e = envx::mk_env(100);
         let p = Address::generate(&e);
         let ex = Address::generate(&e);
@@ -362,6 +394,17 @@ impl World for Tlc {
             let id = BytesN::<32>::try_from_val(&i.e, &v).unwrap();
             i.ids.insert(op, id);
         }
+        if seed == 1 {
+            let g = OpId { call: Call::GrantProposerX, salt: 1, foreign: false };
+            let ex = if self.with_executor { Some(Who::E) } else { None };
+            for op in [
+                Op::Schedule { op: g, delay: 2, by: Who::P },
+                Op::Advance(2),
+                Op::Admin { call: Call::GrantProposerX, sig: Sig::List(vec![Meta { salt: 1, right_pred: true, executor: ex }]), executor_signs: ex },
+            ] {
+                assert!(self.exec(&i, &op), "seed step {op:?} refused");
+            }
+        }
         let m = self.observe(&i).expect("observe");
         (i, m)
     }
@@ -385,6 +428,13 @@ impl World for Tlc {
         }
         v.push(Op::Advance(1));
         v.push(Op::Advance(2));
+        for grant in [true, false] {
+            for role in if th { vec![Role::Proposer, Role::Canceller, Role::Executor] } else { vec![Role::Proposer, Role::Canceller] } {
+                for caller in if self.with_executor { vec![Who::P, Who::X, Who::E] } else { vec![Who::P, Who::X] } {
+                    v.push(Op::DirectRole { grant, role, caller });
+                }
+            }
+        }
         let exec_choices: Vec<Option<Who>> = if self.with_executor { vec![None, Some(Who::E), Some(Who::X)] } else { vec![None] };
         for call in self.calls() {
             let mut sigs = vec![Sig::NoEntry, Sig::List(vec![])];
@@ -425,6 +475,7 @@ impl World for Tlc {
             Op::Schedule { .. } => "schedule".into(),
             Op::Cancel { .. } => "cancel".into(),
             Op::Advance(_) => "advance".into(),
+            Op::DirectRole { .. } => "direct-role-management".into(),
             Op::Admin { sig, .. } => match sig {
                 Sig::NoEntry => "admin-call(no-entry)".into(),
                 Sig::List(l) if l.is_empty() => "admin-call(empty-descriptors)".into(),
@@ -483,6 +534,33 @@ impl World for Tlc {
                 ensure!(pre.cancellers.contains(by), "cancel-role", "{:?} cancelled without the canceller role", by);
                 ensure!(matches!(pre.ops[o], OpState::Scheduled(_)), "cancel-state", "cancelled {:?} in state {:?}", o, pre.ops[o]);
                 x.ops.insert(*o, OpState::Unset);
+            }
+            Op::DirectRole { grant, role, caller } => {
+                // only the admin (the controller itself) or a holder of the role's admin role may
+                // manage a role; the only role-admin relation ever configured here is
+                // proposer <- executor (by the timelocked set_role_admin call)
+                let permitted = *role == Role::Proposer && pre.proposer_role_admin && pre.executors.contains(caller);
+                ensure!(
+                    permitted,
+                    "role-management-without-timelock",
+                    "{:?} signed only by {:?} took effect although {:?} is neither the admin nor a holder of the role's admin role (no operation was consumed)",
+                    op,
+                    caller,
+                    caller
+                );
+                let set = match role {
+                    Role::Proposer => &mut x.proposers,
+                    Role::Canceller => &mut x.cancellers,
+                    Role::Executor => &mut x.executors,
+                };
+                if *grant {
+                    if !set.contains(&Who::X) {
+                        set.push(Who::X);
+                        set.sort();
+                    }
+                } else {
+                    set.retain(|w| *w != Who::P);
+                }
             }
             Op::Admin { call, sig, executor_signs } => {
                 ensure!(pre.admin_is_self, "admin-renounced", "{:?} succeeded after admin was renounced", call);
@@ -571,6 +649,7 @@ fn main() {
                 rep.require(
                     &["schedule", "cancel", "admin-call(one-descriptor)"],
                     &[
+                        "direct-role-management",
                         "schedule",
                         "cancel",
                         "admin-call(no-entry)",
